@@ -7,7 +7,8 @@ for l in open('/verif/properties.jsonl'):
 print(f"""You are helping test a verification effort by writing realistic *property-breaking* changes ("seeded defects") to the open-source project michael-lazar/pygopherd (a multi-protocol Gopher/Gopher+/HTTP/WAP/Gemini/Spartan file server in Python with a bundled simpleTAL template engine).
 
 Your own scratch git worktree of the project is at /tmp/mut-{pid} . Work ONLY inside /tmp/mut-{pid} (never touch /repo or /verif, never read /verif). Python is /venv/bin/python. Run the project's tests with:
-  cd /tmp/mut-{pid} && /venv/bin/python -m pytest -q -p no:cacheprovider --timeout=900
+  cd /tmp/mut-{pid} && flock /tmp/pgmc-pytest.lock /venv/bin/python -m pytest -q -p no:cacheprovider --timeout=900
+(keep the `flock`: the tests bind a fixed TCP port and other people run them in sibling worktrees at the same time.)
 (the single test tests/handlers/test_zip.py::TestVFSZip::test_save_cache fails on the unmodified tree; that is expected. Everything else must pass.) When you run code, make sure `pygopherd.__file__` / `simpletal.__file__` resolve inside /tmp/mut-{pid} (run from that directory, or put it first on sys.path) — the venv also has an editable install pointing elsewhere.
 
 THE PROPERTY that your changes must break:
@@ -18,7 +19,7 @@ THE PROPERTY that your changes must break:
   Relevant files: {', '.join(p['anchors']['files'])}
   Mechanisms meant to make it hold: {'; '.join(m['name']+' ('+m['where']+')' for m in p['anchors']['mechanism'])}
 
-(ROUND2) Earlier rounds already produced simple changes for this property (a dropped or narrowed check, a changed boundary in the obvious function, an un-escaped value at the obvious site). Look further afield: interactions between two modules, state that outlives a request (module/class attributes, caches), configuration-dependent paths, the less travelled protocol or handler, error paths, encodings. Avoid repeating those simple ones.
+(ROUND3) Two earlier rounds already produced the obvious changes for this property and a number of less obvious ones (a dropped or narrowed check, a changed boundary in the obvious function, an un-escaped value at the obvious site, state hoisted to class or module scope, memoisation and caches, an encoding asymmetry, reordered start-up steps). Avoid repeating those. Think like a maintainer making a well-meant change for ANOTHER reason: a Python modernisation (pathlib, f-strings, `with` blocks, dropping a "redundant" copy or normalisation), a performance shortcut, the fix of a different bug, support for a new option, stricter or more lenient input handling, a rewritten loop or a merged code path. The change should break the property only in a corner that lies inside the "Quantified over" text above but that a verification harness working from a fixed small alphabet of inputs is most likely to have left out: a longer or differently shaped input, a third request, two configuration options that interact, two protocols that interact, a less used module or option.
 
 TASK: produce {n} DIFFERENT changes to the project's source (not its tests), each of which
   (a) still imports/compiles and passes the existing test-suite (run it, to be sure),
